@@ -181,10 +181,16 @@ def llgo_build(moddir, out, opt="O0", tags="", rundir=None, timeout=900, pkg="."
     return r.returncode == 0 and os.path.exists(out), r.stdout + r.stderr
 
 
-def run_exe(exe, args=(), stdin=None, timeout=60, env=None, cwd=None):
-    """returns (status, stdout, stderr); status is exit code, or 'timeout', or 'signal:N'"""
+def run_exe(exe, args=(), stdin=None, timeout=60, env=None, cwd=None, merge=False):
+    """returns (status, stdout, stderr); status is exit code, or 'timeout', or 'signal:N'.
+    merge=True: stderr is folded into stdout in write order (Go's builtin println writes to stderr)"""
     try:
-        r = subprocess.run([exe] + list(args), input=stdin, capture_output=True, timeout=timeout, env=env, cwd=cwd)
+        if merge:
+            r = subprocess.run([exe] + list(args), input=stdin, stdout=subprocess.PIPE, stderr=subprocess.STDOUT,
+                               timeout=timeout, env=env, cwd=cwd)
+            r.stderr = b""
+        else:
+            r = subprocess.run([exe] + list(args), input=stdin, capture_output=True, timeout=timeout, env=env, cwd=cwd)
     except subprocess.TimeoutExpired as e:
         return "timeout", (e.stdout or b"").decode("utf-8", "replace"), (e.stderr or b"").decode("utf-8", "replace")
     st = r.returncode
